@@ -17,6 +17,11 @@
 #include "muggle/c/base/err.h"
 #include <sanitizer/allocator_interface.h>
 #include <ctype.h>
+#include <unistd.h>
+
+/* a corrupted list can make the library loop forever: every case and every op has
+ * 10 s, then SIGALRM ends the process and the case counts as crashed */
+#define VH_WATCHDOG() alarm(10)
 
 enum { K_NONE, K_AL, K_ST, K_LL, K_Q, K_PS };
 static int g_kind = K_NONE;
@@ -116,6 +121,7 @@ static int node_live(unsigned long long id) { return id < g_nnodes && g_nodes[id
 
 static void vh_reset(void)
 {
+	VH_WATCHDOG();
 	switch (g_kind) {
 	case K_AL: muggle_array_list_destroy(&g_al, NULL, NULL); break;
 	case K_ST: muggle_stack_destroy(&g_st, NULL, NULL); break;
@@ -369,6 +375,7 @@ static void vh_op(int argc, char **argv)
 {
 	const char *op = argv[0];
 	unsigned long long c, a;
+	VH_WATCHDOG();
 	if (g_dead) { printf("dead\n"); return; }
 	if (strcmp(op, "al_init") == 0 || strcmp(op, "st_init") == 0 ||
 	    strcmp(op, "ll_init") == 0 || strcmp(op, "q_init") == 0) {
